@@ -1,6 +1,7 @@
 package harness
 
 import (
+	"os"
 	"fmt"
 	"sort"
 	"strings"
@@ -551,8 +552,30 @@ func reqEffects(wr *WriteReq) []effect {
 func (cs *crashState) check(prop string, k int, imgKind string, rc *recovered, inf *WOp, seed uint64) (vs []*Violation, evaluated bool) {
 	win := window(cs.lt.log, k)
 	mk := func(class, sig, detail string) *Violation {
-		return &Violation{Prop: prop, Class: class, Sig: prop + "|" + sig, Detail: detail, Seed: seed,
-			Replay: map[string]interface{}{"engine": "crash", "k": k, "image": imgKind, "window": win, "lifetime_from": cs.lt.from}}
+		rp := map[string]interface{}{"engine": "crash", "k": k, "image": imgKind, "window": win, "lifetime_from": cs.lt.from}
+		if cs.dropped != nil {
+			// the fault trace of a power-loss image: which un-synced operations were lost or torn
+			var tr []string
+			for i, op := range cs.dropped {
+				if i >= 60 {
+					tr = append(tr, fmt.Sprintf("… +%d more", len(cs.dropped)-60))
+					break
+				}
+				tr = append(tr, fmt.Sprintf("#%d %s %s off=%d len=%d size=%d at %s", op.Seq, opKindName(op), strings.TrimPrefix(op.Path, dataRoot+"/"), op.Off, len(op.Data), op.Size, op.Site))
+			}
+			rp["lost_or_torn_ops"] = tr
+		}
+		if os.Getenv("VERIF_DUMP") != "" {
+			synced := simos.SyncedBy(cs.lt.log)
+			for i := 0; i < k && i < len(cs.lt.log); i++ {
+				op := cs.lt.log[i]
+				if !op.Mutating() && op.Kind != simos.OpSync && op.Kind != simos.OpSyncFS {
+					continue
+				}
+				fmt.Printf("  op %3d seq=%d kind=%d %s off=%d len=%d size=%d syncedBy=%d site=%s\n", i, op.Seq, op.Kind, strings.TrimPrefix(op.Path, dataRoot+"/"), op.Off, len(op.Data), op.Size, synced[i], op.Site)
+			}
+		}
+		return &Violation{Prop: prop, Class: class, Sig: prop + "|" + sig, Detail: detail, Seed: seed, Replay: rp}
 	}
 	restartFailed := rc.Start != nil || rc.SimErr != nil || len(rc.Panics) > 0
 	if prop == "C03" {
@@ -776,6 +799,16 @@ func (cs *crashState) lossFact(key string, t int64) string {
 		}
 	}
 	return "data-not-durable"
+}
+
+func opKindName(op *simos.Op) string {
+	switch op.Kind {
+	case simos.OpWrite:
+		return "write"
+	case simos.OpTruncate:
+		return "truncate"
+	}
+	return fmt.Sprintf("op%d", op.Kind)
 }
 
 func kindOf(b *Bucket) string {
